@@ -281,7 +281,7 @@ fn run(ctx: &mut Ctx) {
             }
             for (sname, s) in &states {
                 // the two alternative spellings only on every third state
-                if si > 0 && (sname.len() + si) % 3 != 0 {
+                if !ctx.tier.thorough() && si > 0 && (sname.len() + si) % 3 != 0 {
                     continue;
                 }
                 check_state(ctx, &letters, sp, sname, s);
